@@ -490,11 +490,144 @@ def r6(mods):
     check(ok, "R6", "verdict/invalid-lists-disable-routing", loc(path, f) if f else rel(path), "with invalid lists nothing is routed; otherwise the header override, then the host/IP verdict")
 
 
+# ---- R7 decision tables: the small verdict functions return/do exactly the reviewed things
+# under exactly the reviewed conditions (conditions and expressions are compared as
+# normalised source text of the ast, statements that only log are ignored) ----
+def decision_table(fn):
+    rows = []
+
+    def is_log(st):
+        t = src(st)
+        return "_logger." in t or t.startswith("logger.") or t.startswith("logging.") or (isinstance(st, ast.Expr) and isinstance(st.value, ast.Constant))
+
+    def cond(test, pol):
+        """canonical text of a branch condition: negations folded, comparison operands ordered,
+        conjuncts/disjuncts sorted"""
+        if isinstance(test, ast.UnaryOp) and isinstance(test.op, ast.Not):
+            return cond(test.operand, not pol)
+        if isinstance(test, ast.BoolOp):
+            conj = (isinstance(test.op, ast.And) and pol) or (isinstance(test.op, ast.Or) and not pol)
+            parts = sorted(cond(v, pol) for v in test.values)
+            return ("AND(" if conj else "OR(") + " , ".join(parts) + ")"
+        if isinstance(test, ast.Compare) and len(test.ops) == 1 and type(test.ops[0]) in OPS:
+            op = OPS[type(test.ops[0])]
+            l, r = src(test.left), src(test.comparators[0])
+            if not pol:
+                op = NEG[op]
+            if op in FLIP and r < l:
+                l, r, op = r, l, FLIP[op]
+            return f"{l} {op} {r}"
+        if isinstance(test, ast.Compare) and len(test.ops) == 1 and isinstance(test.ops[0], (ast.In, ast.NotIn)):
+            neg = isinstance(test.ops[0], ast.NotIn) != (not pol)
+            return f"{src(test.left)} {'not in' if neg else 'in'} {src(test.comparators[0])}"
+        t = src(test)
+        return t if pol else f"!({t})"
+
+    def walk(stmts, conds):
+        for st in stmts:
+            if isinstance(st, ast.If):
+                a = walk(st.body, conds + [cond(st.test, True)])
+                b = walk(st.orelse, conds + [cond(st.test, False)]) if st.orelse else conds + [cond(st.test, False)]
+                if a is None and b is None:
+                    return None
+                if a is None:
+                    conds = b
+                elif b is None:
+                    conds = a
+                continue
+            if isinstance(st, (ast.For, ast.While)):
+                hdr = f"for {src(st.target)} in {src(st.iter)}" if isinstance(st, ast.For) else f"while {src(st.test)}"
+                walk(st.body, conds + [hdr])
+                continue
+            if isinstance(st, ast.Try):
+                walk(st.body, conds + ["try"])
+                for h in st.handlers:
+                    walk(h.body, conds + [f"except {src(h.type) if h.type else ''}"])
+                walk(st.finalbody, conds + ["finally"])
+                continue
+            if isinstance(st, ast.With):
+                walk(st.body, conds + [f"with {', '.join(src(i.context_expr) for i in st.items)}"])
+                continue
+            if isinstance(st, ast.Return):
+                rows.append(f"RET {src(st.value) if st.value else 'None'} <= {' ; '.join(conds)}")
+                return None
+            if isinstance(st, ast.Raise):
+                rows.append(f"RAISE {src(st.exc) if st.exc else ''} <= {' ; '.join(conds)}")
+                return None
+            if is_log(st) or isinstance(st, ast.Pass):
+                continue
+            rows.append(f"DO {src(st)} <= {' ; '.join(conds)}")
+        return conds
+
+    end = walk(fn.body, [])
+    if end is not None:
+        rows.append(f"RET None <= {' ; '.join(end)}")
+    return sorted(rows)
+
+
+TABLES = json.load(open(os.path.join(os.path.dirname(os.path.abspath(__file__)), "c19_tables.json")))
+
+
+def r7(mods):
+    for modkey, cls_name, fname in TABLE_FUNCS:
+        tree, path = mods[modkey]
+        cls = find_class(tree, cls_name)
+        fns = [n for n in (cls.body if cls else []) if isinstance(n, (ast.FunctionDef, ast.AsyncFunctionDef)) and n.name == fname]
+        key = f"{cls_name}.{fname}"
+        if not fns:
+            undec("R7", f"table/{key}", rel(path), "function not found")
+            continue
+        # a property has a getter and a setter of the same name: check each
+        for i, fn in enumerate(fns):
+            k = key if len(fns) == 1 else f"{key}#{i+1}"
+            got = decision_table(fn)
+            want = TABLES.get(k)
+            if want is None:
+                undec("R7", f"table/{k}", loc(path, fn), "no reviewed table for this function")
+                continue
+            extra = [g for g in got if g not in want]
+            missing = [w for w in want if w not in got]
+            check(not extra and not missing, "R7", f"table/{k}", loc(path, fn),
+                  f"{len(got)} (result/effect <= conditions) rows equal the reviewed table" + ("" if not extra and not missing else f"; not in the table: {extra[:3]}; missing: {missing[:3]}"))
+
+
+TABLE_FUNCS = [
+    ("traffic_filter", "TrafficFilter", "is_allowed"),
+    ("traffic_filter", "TrafficFilter", "_check_if_host_or_ip_is_allowed"),
+    ("traffic_filter", "TrafficFilter", "_check_allowed"),
+    ("traffic_filter", "TrafficFilter", "_check_blocked"),
+    ("traffic_filter", "TrafficFilter", "_check_for_header_based_filter"),
+    ("traffic_filter", "TrafficFilter", "_is_external"),
+    ("traffic_filter", "TrafficFilter", "is_access_list_valid"),
+    ("traffic_filter", "TrafficFilter", "_validate_ip"),
+    ("traffic_filter", "TrafficFilter", "_is_external_ip"),
+    ("traffic_filter", "TrafficFilter", "_is_external_domain"),
+    ("fail_safe", "FailSafe", "__exit__"),
+    ("fail_safe", "FailSafe", "_on_error"),
+    ("fail_safe", "FailSafe", "state_ok"),
+    ("fail_safe", "FailSafe", "handle_on"),
+    ("fail_safe", "FailSafe", "validate_headers"),
+    ("fail_safe", "FailSafe", "_ensure_enter_fail_safe"),
+    ("fail_safe", "FailSafe", "_ensure_exit_fail_safe"),
+]
+
+
 def main():
     tier = "quick"
     if "--tier" in sys.argv:
         tier = sys.argv[sys.argv.index("--tier") + 1]
     tier = os.environ.get("VERIF_TIER", tier) if "--tier" not in sys.argv else tier
+    if "--gen-tables" in sys.argv:
+        mods = load()
+        out = {}
+        for modkey, cls_name, fname in TABLE_FUNCS:
+            tree, path = mods[modkey]
+            cls = find_class(tree, cls_name)
+            fns = [n for n in (cls.body if cls else []) if isinstance(n, (ast.FunctionDef, ast.AsyncFunctionDef)) and n.name == fname]
+            for i, fn in enumerate(fns):
+                out[f"{cls_name}.{fname}" if len(fns) == 1 else f"{cls_name}.{fname}#{i+1}"] = decision_table(fn)
+        print(json.dumps(out, indent=1, sort_keys=True))
+        return 0
     if "--explain" in sys.argv:
         print(open(sys.argv[sys.argv.index("--explain") + 1]).read())
         return 0
@@ -505,7 +638,7 @@ def main():
         undec("R0", "load", "-", f"cannot parse the interceptor sources: {e}")
         mods = None
     if mods:
-        for rule in (r1, r2, r3, r4, r5, r6):
+        for rule in (r1, r2, r3, r4, r5, r6, r7):
             try:
                 rule(mods)
             except Exception as e:
